@@ -2,11 +2,13 @@ package store
 
 import (
 	"bytes"
+	"context"
 	"errors"
 	"os"
 	"path/filepath"
 
 	"github.com/ipld/go-storethehash/internal/vrt"
+	"github.com/ipld/go-storethehash/store/index"
 	"github.com/ipld/go-storethehash/store/types"
 )
 
@@ -40,7 +42,7 @@ func sameDirImage(a, b dirImage) bool {
 	return true
 }
 
-var optionalCoverH09 = []string{"h09-interrupted-translation-recovered", "h09-interrupted-translation-refused"}
+var optionalCoverH09 = []string{"h09-interrupted-translation-recovered", "h09-interrupted-translation-refused", "h09-first-file-advanced-before-change"}
 
 var bitChoices = []uint8{8, 9, 12, 16, 10, 11}
 
@@ -50,8 +52,15 @@ var bitChoices = []uint8{8, 9, 12, 16, 10, 11}
 func Verif_H09Translate() {
 	dir := vrt.TempDir()
 	nb := vrt.Param("nbits", 3)
-	b1 := bitChoices[vrt.Choose("bits1", nb)]
-	b2 := bitChoices[vrt.Choose("bits2", nb)]
+	choices := bitChoices
+	if vrt.Param("widebits", 0) != 0 {
+		choices = []uint8{8, 16} // sizes that strip a different number of key bytes
+	}
+	b1 := choices[vrt.Choose("bits1", nb)]
+	b2 := choices[vrt.Choose("bits2", nb)]
+	if vrt.Param("widebits", 0) == 2 {
+		vrt.Assume(b1 == 8 && b2 == 16) // only the widening direction (the 16-bit table is costly to explore)
+	}
 	c := symCfg()
 	c.bits = b1
 	s, err := openCfg(dir, c)
@@ -73,9 +82,22 @@ func Verif_H09Translate() {
 	for step := 0; step < n; step++ {
 		apiStep(s, c, keys, m, ops[vrt.Choose("op", len(ops))], "history")
 	}
+	if vrt.Param("pregc", 0) != 0 {
+		// an index that was garbage collected before the change (its header's first-file
+		// number may have advanced past 0)
+		_, _, err := s.index.VerifGC(context.Background(), true)
+		vrt.Assert(err == nil, "index-gc-no-error", "where", "before-bit-size-change")
+		checkAll(s, keys, m, "after-gc")
+		if h, err := index.VerifReadHeader(s.index.VerifBasePath()); err == nil && h.FirstFile > 0 {
+			vrt.Cover(optionalCoverH09[2])
+		}
+	}
 	vrt.Assert(s.Close() == nil, "close-no-error")
 
-	scen := vrt.Choose("scenario", 4+vrt.Param("crash", 0))
+	scen := 0
+	if vrt.Param("onlytranslate", 0) == 0 {
+		scen = vrt.Choose("scenario", 4+vrt.Param("crash", 0))
+	}
 	if scen == 3 && vrt.Param("crash", 0) == 0 {
 		scen = 4
 	} else if scen == 4 {
@@ -132,6 +154,18 @@ func Verif_H09Translate() {
 		}
 		checkAll(s2, keys, m, "translated")
 		checkIter(s2, keys, m, "translated")
+		if vrt.Param("uncleancopy", 1) != 0 {
+			// the re-bucketed store must also survive an unclean shutdown right away: a copy
+			// of the directory (no bucket snapshot) is recovered by scanning the index files,
+			// so anything left in the index directory that is not part of the new index shows
+			img := vrt.CopyDir(dir)
+			r, err := openCfg(img, c2)
+			vrt.Assert(err == nil, "open-copy-of-translated-store-no-error")
+			if err == nil {
+				checkAll(r, keys, m, "translated/unclean-copy")
+				vrt.Assert(r.Close() == nil, "close-copy-no-error")
+			}
+		}
 		apiStep(s2, c2, keys, m, []int{opPut, opRemove}[vrt.Choose("after-op", 2)], "after-translate")
 		checkAll(s2, keys, m, "after-translate")
 		vrt.Assert(s2.Close() == nil, "close2-no-error")
